@@ -95,6 +95,60 @@ DISCR = {'None': 0, 'Some': 1, 'Ok': 0, 'Err': 1, 'Less': 255, 'Equal': 0, 'Grea
          'OneD': 1, 'TwoD': 2, 'ThreeD': 3}             # Dimensionality (explicit repr(usize) values)
 
 
+_enum_cache = {}
+
+
+def source_enum_discriminants(src_root):
+    """variant name -> discriminant for every fieldless-or-not `enum` declared in the crate (declaration order, explicit `= n` honoured);
+    read from the current source so that a reordered enum is tracked.  Variant names that occur in two enums with different
+    discriminants are dropped (ambiguous -> Unsupported when used)."""
+    import os
+    if src_root in _enum_cache:
+        return _enum_cache[src_root]
+    out, clash = {}, set()
+    for root, _d, files in os.walk(os.path.join(src_root, 'src')):
+        for f in files:
+            if not f.endswith('.rs'):
+                continue
+            txt = re.sub(r'//[^\n]*', '', open(os.path.join(root, f)).read())
+            for m in re.finditer(r'\benum\s+(\w+)\s*(?:<[^>{]*>)?\s*\{', txt):
+                depth, j = 1, m.end()
+                while j < len(txt) and depth:
+                    depth += {'{': 1, '}': -1}.get(txt[j], 0)
+                    j += 1
+                body = txt[m.end():j - 1]
+                # split at top level commas
+                parts, cur, d2 = [], '', 0
+                for ch in body:
+                    if ch in '({[<':
+                        d2 += 1
+                    elif ch in ')}]>':
+                        d2 -= 1
+                    if ch == ',' and d2 == 0:
+                        parts.append(cur); cur = ''
+                    else:
+                        cur += ch
+                parts.append(cur)
+                nxt = 0
+                for p_ in parts:
+                    p_ = re.sub(r'#\[[^\]]*\]', '', p_).strip()
+                    mm = re.match(r'(\w+)', p_)
+                    if not mm:
+                        continue
+                    ev = re.search(r'=\s*(\d+)\s*$', p_)
+                    if ev:
+                        nxt = int(ev.group(1))
+                    nm = mm.group(1)
+                    if nm in out and out[nm] != nxt:
+                        clash.add(nm)
+                    out[nm] = nxt
+                    nxt += 1
+    for nm in clash:
+        out.pop(nm, None)
+    _enum_cache[src_root] = out
+    return out
+
+
 # ----------------------------------------------------------------------------
 # scalar helpers (concrete when possible)
 
@@ -293,6 +347,8 @@ class Interp:
         self.panics = []                  # (pc tuple, message, state)
         self.generics = generics or {}
         self.discr = dict(DISCR)
+        for k_, v_ in source_enum_discriminants(src_root).items():
+            self.discr.setdefault(k_, v_)
         if enum_discr:
             self.discr.update(enum_discr)
         self.frame_fn = {}
@@ -851,6 +907,7 @@ class Interp:
         for rx, fn in self.models:
             if rx.fullmatch(norm):
                 self.stats['model_calls'] += 1
+                self.cur_generics = generics
                 r = fn(self, st, args, callee)
                 return r if isinstance(r, list) else [(st, r)]
         raise Unsupported('unsupported callee: %s  (normalised: %s) at %s' % (callee, norm, where))
